@@ -797,6 +797,8 @@ def draw_opts(rng, spec):
         o["mw_config"] = True
     if rng.random() < 0.3:
         o["mw_ops"] = {op: rng.choice([1, 2, 3, None]) for op in rng.sample(["load", "trees", "auto", "cross", "hist"], 2)}
+    if rng.random() < 0.4:
+        o["source"] = rng.choice(["parquet", "hdf5", "random"])
     if rng.random() < 0.25 and 10 * nc <= n:
         o["create_mode"] = "num"          # explicit probe sizes below 10 * patch_num or above n are refusals (class A)
         o["probe"] = rng.choice([10 * nc, n, (10 * nc + n) // 2])
@@ -908,6 +910,7 @@ def world_reference(ctx, ref, specname, opts):
         d = os.path.join(ref["base"], "wref_%d" % len(_world_refs))
         os.makedirs(os.path.join(d, "out"), exist_ok=True)
         impl.set_threads(1)
+        cc.prepare_create_input(spec, os.path.join(d, "created"), "data", sopts)
         with quiet_stderr():
             create = cc.stage_create(spec, os.path.join(d, "created"), 1, "data", sopts)
             caches = {}
@@ -1005,9 +1008,12 @@ def refusal_job(w, d, caches, ref, item, jid, seed):
     mw = w["mw"]
     if cc.REFUSALS[cls][2] and mw == 1:
         mw = 2          # catalog creation on an MPI world is refused for max_workers=1 whatever the input
+    env = refusal_env(os.path.join(d, "refusal_" + jid), ref, cls, caches)
+    if item["follow"] == "create":      # stage_follow creates in <scratch directory>/follow
+        cc.prepare_create_input(SPECS[w["spec"]], os.path.join(env["dir"], "follow"), "data", w.get("opts"))
     return dict(kind="refusal", id=jid, cls=cls, par=item["par"], follow=item["follow"], spec=SPECS[w["spec"]],
                 trace=cc.REFUSALS[cls][0] == "C", opts=w.get("opts") or {},
-                env=refusal_env(os.path.join(d, "refusal_" + jid), ref, cls, caches), max_workers=mw,
+                env=env, max_workers=mw,
                 sched=dict(mode=w["mode"], policy=w["policy"], seed=seed),
                 ref_first=item.get("ref_first") or refusal_reference(ref, w["spec"], cls, item["par"]))
 
@@ -1112,6 +1118,7 @@ def pipeline_job(ctx, w, ref):
     os.makedirs(os.path.join(d, "out"), exist_ok=True)
     jobs = []
     if w.get("create", True):
+        cc.prepare_create_input(spec, os.path.join(d, "created"), "data", w.get("opts"))
         jobs.append(dict(kind="create", id="create", spec=spec, cache=os.path.join(d, "created"), which="data",
                          max_workers=w["mw"], sched=sched, keep_log=True, opts=w.get("opts") or {}))
     jobs.append(dict(kind="rest", id="rest", spec=spec, caches=caches, outdir=os.path.join(d, "out"),
